@@ -72,6 +72,20 @@ def handle (line : String) : String :=
       match npatOfSexp a, npatOfSexp b with
       | some a, some b => (match NPat.peqF fuel a b with | some r => toString r | none => "fuel")
       | _, _ => "bad-request"
+    | "rule-mp", [a, b] =>
+      match npatOfSexp a, npatOfSexp b with
+      | some a, some b => (match NPat.pyMP fuel a b with
+          | none => "fuel" | some none => "(raise AssertionError)" | some (some r) => npatToStr r)
+      | _, _ => "bad-request"
+    | "rule-gen", [a, x] =>
+      match npatOfSexp a, nat? x with
+      | some a, some x => (match NPat.pyGen fuel a x with
+          | none => "fuel" | some none => "(raise AssertionError)" | some (some r) => npatToStr r)
+      | _, _ => "bad-request"
+    | "rule-inst", [a, d] =>
+      match npatOfSexp a, nmapOfSexp d with
+      | some a, some d => (match NPat.pyInst fuel a d with | none => "fuel" | some r => npatToStr r)
+      | _, _ => "bad-request"
     | "pretty", [p] =>
       match ppOfSexp p with
       | some p => (match p.pretty with | some s => "s:" ++ s | none => "(raise ValueError)")
